@@ -742,3 +742,49 @@ def bundled(tier):
         d = Path("/repo/tests/data")
     files = sorted(d.glob("*.json"), key=lambda p: p.stat().st_size)
     return [p for p in files if tier == "thorough" or p.stat().st_size < 400_000]
+
+
+# ----------------------------------------------------------------------------- traces of the repository's own tests
+def repo_test_traces(workdir: Path, limit=400):
+    """Run tests/test_io of the tree under test with the hooks on; cut the event stream into save / load segments."""
+    import subprocess, sys
+    src = Path(os.environ.get("VERIF_SRC", "/repo/src"))
+    repo = src.parent
+    tf = workdir / "repo_tests_trace.ndjson"
+    if tf.exists():
+        tf.unlink()
+    env = dict(os.environ, SOUNDEVENT_VERIF=str(tf), PYTHONPATH=str(src))
+    p = subprocess.run([sys.executable, "-m", "pytest", "-q", "-x", "-p", "no:cacheprovider", "-p", "no:xdist", "tests/test_io",
+                        "--deselect", "tests/test_io/test_crowsetta"],
+                       cwd=str(repo), env=env, capture_output=True, text=True, timeout=900)
+    if not tf.exists():
+        raise Machinery("the repository's tests produced no hook events: " + p.stdout[-300:])
+    segs, cur = [], None
+    names = {}
+    for line in tf.read_text().splitlines():
+        r = json.loads(line)
+        ev = r["ev"]
+        if ev == "begin":
+            cur = {"dir": r["dir"], "ctype": r["ctype"], "events": []}
+            names = {}
+            continue
+        if cur is None:
+            continue          # adapters exercised directly by a unit test, outside save/load
+        if ev == "end":
+            if r["dir"] == "save":
+                cur["events"].append({"e": "endsave", "k": "", "o": "", "n": 0})
+            segs.append(cur)
+            cur = None
+            continue
+        k = ADAPTER_KIND.get(r.get("adapter"), "?")
+        o = ""
+        if "id" in r:
+            o = names.setdefault((k, str(r["id"])), f"{k}#{len(names) + 1}")
+        n = int(r["size"]) if "size" in r else (1 if r.get("hit") else 0)
+        cur["events"].append({"e": ev, "k": k, "o": o, "n": n})
+    tf.unlink()
+    segs = [s for s in segs if s["events"] and all(ev["k"] != "?" for ev in s["events"])]
+    step = max(1, len(segs) // limit)
+    for s in segs[::step]:
+        yield {"src": "repo-tests:" + s["dir"], "in": {"ctype": s["ctype"], "objs": [], "sw": ["repo-tests"]},
+               "out": {"traces": [s["events"]]}}
